@@ -111,7 +111,11 @@ func c02Run(c *ev.Ctx) {
 				continue
 			}
 			input := in.build()
-			for _, d := range deliveriesFor(in.Len, o.blockLen(), reducedMode(o), c.Thorough()) {
+			mode := reducedMode(o)
+			if in.Content == "rep65536" {
+				mode = "few"
+			}
+			for _, d := range deliveriesFor(in.Len, o.blockLen(), mode, c.Thorough()) {
 				it := corpusItem{o, in, d}
 				frame, err := produceFrame(o, input, d)
 				emit(it, input, frame, err)
@@ -218,7 +222,7 @@ func c09Run(c *ev.Ctx) {
 			}
 			input := in.build()
 			mode := "few"
-			if o.Level == 0 && o.Conc == 1 {
+			if o.Level == 0 && o.Conc == 1 && in.Content != "rep65536" {
 				mode = "all"
 			}
 			for _, d := range deliveriesFor(in.Len, o.blockLen(), mode, c.Thorough()) {
@@ -304,6 +308,12 @@ func c09ReusedWriter(c *ev.Ctx) {
 					w = lz4.NewWriter(sink)
 					ws[o.Conc] = w
 				} else {
+					if n%3 == 1 {
+						// abandon a frame first: data written, no Close, then Reset (pending data is dropped)
+						junk := &countSink{}
+						w.Reset(junk)
+						w.Write(input[:len(input)/2])
+					}
 					w.Reset(sink)
 				}
 				if err = w.Apply(o.options(len(input))...); err != nil {
